@@ -17,15 +17,9 @@ open Cnfgen Cnfgen.Fam
 theorem lt_two_pow_self' (p : Nat) : p < 2 ^ p := Nat.lt_two_pow_self
 
 theorem clog2_two_pow (p : Nat) : Vars.clog2 (2 ^ p) = p := by
-<<<<<<< HEAD
-  have h1 := (Vars.clog2_spec (2 ^ p)).2 p (Nat.le_refl _)
-  have h2 := (Vars.clog2_spec (2 ^ p)).1
-  have h3 : p ≤ Vars.clog2 (2 ^ p) := (Nat.pow_le_pow_iff_right (by omega)).1 h2
-=======
   obtain ⟨h1, h2⟩ := Vars.clog2_spec (2 ^ p)
   have hle : Vars.clog2 (2 ^ p) ≤ p := h2 p (Nat.le_refl _)
   have hge : p ≤ Vars.clog2 (2 ^ p) := (Nat.pow_le_pow_iff_right (by omega)).1 h1
->>>>>>> 26956a4ac135d4887c483352f958560750f95c7a
   omega
 
 theorem intlog2Aux_two_pow (p : Nat) : ∀ (fuel i : Nat), i ≤ p → p ≤ i + fuel →
